@@ -78,6 +78,47 @@ def main(argv):
         store.conn.set_progress_handler(None, 1)
         print(f"OK B {calls[0]}", flush=True)
         return 0
+    if mode == "isolation":
+        # stores on DIFFERENT databases that have the same connection string: two `:memory:` stores, and the same
+        # relative path opened from two working directories.  Prints, per store, the answers it gave.
+        import os as _os
+        base = argv[1]
+        from monkeytype.db.sqlite import SQLiteStore
+        x = [["t", "m", "my_func", 0, None], ["bad", "arg"], ["t", "M", "foo", 1, None]]
+        y = [["t", "m", "foo", 0, None], ["t", "m", "my_func", 8, None]]
+        out = {}
+        for scen in ("memory", "relative"):
+            stores = []
+            for k in (0, 1):
+                if scen == "relative":
+                    d = _os.path.join(base, f"cwd{k}")
+                    _os.makedirs(d, exist_ok=True)
+                    _os.chdir(d)
+                    stores.append(SQLiteStore.make_store("traces.db"))
+                else:
+                    stores.append(SQLiteStore.make_store(":memory:"))
+            logs = [[], []]
+
+            def do(k, op):
+                st = stores[k]
+                try:
+                    if op[0] == "add":
+                        st.add([sm.build_trace(sp) for sp in op[2]])
+                        obs = {"k": "none"}
+                    elif op[0] == "filter":
+                        rs = st.filter(op[2], op[3], op[4])
+                        obs = {"k": "rows", "rows": [[r.module, r.qualname, r.arg_types, r.return_type, r.yield_type] for r in rs]}
+                    else:
+                        obs = {"k": "mods", "mods": list(st.list_modules())}
+                except Exception as e:
+                    obs = {"k": "raised", "err": f"{type(e).__name__}: {e}"}
+                logs[k].append([op, obs])
+            do(0, ["add", 0, x]); do(1, ["filter", 0, "m", None, 2000]); do(1, ["modules", 0]); do(0, ["filter", 0, "m", None, 2000])
+            do(1, ["add", 0, y]); do(0, ["filter", 0, "m", "my_func", 2000]); do(1, ["filter", 0, "m", "my_func", 2000])
+            do(0, ["modules", 0]); do(1, ["modules", 0]); do(0, ["filter", 0, "M", None, 2000]); do(1, ["filter", 0, "M", None, 2000])
+            out[scen] = logs
+        print(json.dumps(out))
+        return 0
     if mode == "spillkill":
         # dies as soon as the database file has grown by `grow` bytes, i.e. strictly inside the big insert, after
         # SQLite had to write pages of the uncommitted batch over / behind committed pages of the file
